@@ -6,8 +6,8 @@ import os
 
 VERIF = os.path.dirname(os.path.dirname(os.path.abspath(__file__)))
 
-TB = ("Trusted: Coq 8.16.1 kernel + vm_compute; the hand-written Gallina model (tied to /repo only by this run's "
-      "differential correspondence, evaluated inside Coq); the Python harness (generators, tick<->float "
+TB = ("Trusted: Coq 8.16.1 kernel + vm_compute; the hand-written Gallina model (tied to /repo by this run's "
+      "differential correspondence, evaluated inside Coq, and by the facts lemmas over the regenerated SourceFacts.v); the Python harness (generators, tick<->float "
       "conversion, canonicalisation); CPython semantics mirrored in the model.  Axioms per theorem are those "
       "printed by Print Assumptions, copied into the evidence file on every run.")
 
@@ -250,18 +250,20 @@ def main():
     man = {
         "version": 1,
         "setup_cmd": "./setup.sh",
-        "hooks": {"guard": "PRAATIO_VERIF", "enable": "no hooks are needed: every observation goes through the public API or private helpers imported by name",
+        "hooks": {"guard": "PRAATIO_VERIF", "enable": "no hooks are needed: every observation goes through the public API, private helpers imported by name, or files; VERIF_REPO=<checkout> points the checks at another working tree",
                   "baseline_off_cmd": "cd /repo && /venv/bin/python -m pytest -ra -q -p no:cacheprovider --timeout=900 --continue-on-collection-errors",
                   "source_commits": [], "add_only": True},
         "engines": [
             {"name": "coq", "path": "coq/theories", "serves_properties": sorted(CLAIMED),
              "kind_free_text": "Coq 8.16.1 development: models, specifications, proofs, boolean oracles; Props/Cnn.v holds the property theorems"},
+            {"name": "source-facts", "path": "tools/source_facts.py", "serves_properties": sorted(CLAIMED),
+             "kind_free_text": "Python-ast translator regenerating SourceFacts.v (regex literals, format strings, option tables, audio index expressions, KlattGrid name lists) from /repo on every run; coq/facts/Facts*.v re-prove that they are what the models were written for"},
             {"name": "harness", "path": "harness", "serves_properties": sorted(CLAIMED),
              "kind_free_text": "Python: generators, runs praatIO from /repo's working tree, writes case files evaluated by coqc (vm_compute), verdict, evidence, replay"},
         ],
         "checks": checks,
         "not_applicable": na,
-        "notes": "Known defects and repairs are listed in known_findings.json; DESIGN.md explains the approach.",
+        "notes": "Known defects and repairs are listed in known_findings.json; DESIGN.md explains the approach; seeded/ holds independently written breaking changes and seeded/results.json what the checks reported on them.",
     }
     with open(os.path.join(VERIF, "MANIFEST.json"), "w") as fh:
         json.dump(man, fh, indent=1)
